@@ -1602,6 +1602,15 @@ func (f *fctx) allInvariants(h *ssa.BasicBlock) []Clause {
 	if rangeIndexBound(h) != nil {
 		out = append(out, Clause{Text: "0 <= $i && $i <= $len (automatic: range index within the slice)", Expr: autoRangeIndexInv, Tag: "auto-index"})
 	}
+	if phi := canonicalInduction(h); phi != nil {
+		// for i := 0; i < len(s); i++ : the counter is non-negative, and at most the length when the bound is a
+		// length (which cannot be negative); proved like every other invariant (I0 / I1)
+		if x := counterLenOperand(h, phi); x != nil && f.sliceTermOf(x) != nil {
+			out = append(out, Clause{Text: "0 <= $i && $i <= $len (automatic: counter of an index loop over the length of a slice)", Expr: autoRangeIndexInv, Tag: "auto-counter"})
+		} else {
+			out = append(out, Clause{Text: "0 <= $i (automatic: counter of an index loop)", Expr: autoCounterInv, Tag: "auto-counter"})
+		}
+	}
 	for _, ins := range h.Instrs {
 		if nx, ok := ins.(*ssa.Next); ok {
 			if ri, ok := f.ranges[nx.Iter]; ok && ri.isMap {
@@ -1941,6 +1950,33 @@ func (f *fctx) loopEnv(h *ssa.BasicBlock, from *ssa.BasicBlock, st *State) *Env 
 		}
 		vars["$"+phi.Name()] = t
 	}
+	// an index loop `for i := 0; i < n; i++` has no range index: its canonical induction variable plays the part
+	// (so that a range loop rewritten as an index loop still matches invariants written with $i)
+	if _, has := vars["$i"]; !has {
+		if phi := canonicalInduction(h); phi != nil {
+			var t Term
+			if from == nil {
+				t = f.vals[phi]
+			} else {
+				for j, pp := range h.Preds {
+					if pp == from {
+						t = f.val(phi.Edges[j])
+					}
+				}
+			}
+			if t.S != "" {
+				vars["$i"] = t
+			}
+		}
+	}
+	for hh, ord := range f.loopOrd {
+		key := fmt.Sprintf("$i%d", ord)
+		if phi := canonicalInduction(hh); phi != nil && !hasRangeIndex(hh) {
+			if t, ok := f.vals[phi]; ok && !(hh == h && from != nil) {
+				vars[key] = t
+			}
+		}
+	}
 	// range indices of every loop already entered, by loop ordinal: $i0, $i1, ...
 	for hh, ord := range f.loopOrd {
 		for _, ins := range hh.Instrs {
@@ -1971,6 +2007,12 @@ func (f *fctx) loopEnv(h *ssa.BasicBlock, from *ssa.BasicBlock, st *State) *Env 
 	if lenV := rangeIndexBound(h); lenV != nil {
 		if t, ok := f.vals[lenV]; ok {
 			vars["$len"] = t
+		}
+	} else if phi := canonicalInduction(h); phi != nil {
+		if x := counterLenOperand(h, phi); x != nil {
+			if t := f.sliceTermOf(x); t != nil {
+				vars["$len"] = T(SInt, "(seq.len %s)", t.S)
+			}
 		}
 	}
 	if f.emitSeq != "" {
@@ -2072,6 +2114,98 @@ func mentionsIdent(text, name string) bool {
 
 func isIdentChar(b byte) bool {
 	return b == '_' || b == '$' || (b >= '0' && b <= '9') || (b >= 'a' && b <= 'z') || (b >= 'A' && b <= 'Z')
+}
+
+var autoCounterInv = mustParse("0 <= $i")
+
+func mustParse(src string) Expr {
+	e, err := ParseExpr(src)
+	if err != nil {
+		panic(err)
+	}
+	return e
+}
+
+// lenBound: the header compares the counter with len(x) (a builtin call placed in the header or before the loop).
+func lenBound(h *ssa.BasicBlock, phi *ssa.Phi) bool {
+	return counterBound(h, phi) != nil
+}
+
+func counterBound(h *ssa.BasicBlock, phi *ssa.Phi) ssa.Value {
+	for _, ins := range h.Instrs {
+		if b, ok := ins.(*ssa.BinOp); ok && b.Op == token.LSS && b.X == phi {
+			if c, ok := b.Y.(*ssa.Call); ok {
+				if bi, ok := c.Call.Value.(*ssa.Builtin); ok && bi.Name() == "len" {
+					return b.Y
+				}
+			}
+		}
+	}
+	return nil
+}
+
+// counterLenOperand: the slice x when the header compares the counter with len(x) and x is defined outside the loop.
+func counterLenOperand(h *ssa.BasicBlock, phi *ssa.Phi) ssa.Value {
+	lv := counterBound(h, phi)
+	if lv == nil {
+		return nil
+	}
+	x := lv.(*ssa.Call).Call.Args[0]
+	switch d := x.(type) {
+	case *ssa.Parameter:
+		return x
+	case ssa.Instruction:
+		if d.Block() != nil && d.Block() != h && d.Block().Dominates(h) {
+			return x
+		}
+	}
+	return nil
+}
+
+// sliceTermOf: the term of a slice value that is already translated.
+func (f *fctx) sliceTermOf(x ssa.Value) *Term {
+	if t, ok := f.vals[x]; ok && t.Sort != nil && t.Sort.Kind == KSeq {
+		return &t
+	}
+	return nil
+}
+
+func hasRangeIndex(h *ssa.BasicBlock) bool {
+	for _, ins := range h.Instrs {
+		if p, ok := ins.(*ssa.Phi); ok && p.Comment == "rangeindex" {
+			return true
+		}
+	}
+	return false
+}
+
+// canonicalInduction: the phi of header h that starts at the constant 0 and is incremented by 1 on the back edge.
+func canonicalInduction(h *ssa.BasicBlock) *ssa.Phi {
+	if hasRangeIndex(h) {
+		return nil
+	}
+	for _, ins := range h.Instrs {
+		phi, ok := ins.(*ssa.Phi)
+		if !ok {
+			break
+		}
+		zero, step := false, false
+		for _, e := range phi.Edges {
+			if c, ok := e.(*ssa.Const); ok && c.Value != nil && c.Int64() == 0 {
+				zero = true
+				continue
+			}
+			if b, ok := e.(*ssa.BinOp); ok && b.Op == token.ADD {
+				if c, ok := b.Y.(*ssa.Const); ok && c.Value != nil && b.X == phi && c.Int64() == 1 {
+					step = true
+				}
+			}
+		}
+		if zero && step && len(phi.Edges) == 2 {
+			return phi
+		}
+	}
+	return nil
 }
 
 // rangeBelongsTo: the Next instruction of the iterator sits in header h.
